@@ -662,3 +662,135 @@ Proof. intros mi [p d c0 gs] c Hp. simpl in Hp. subst p. cbn. repeat split; refl
    session events, and session states other than expired / connected, publish nothing *)
 Lemma zk_session_other : forall st c, zk_session false st c = [] /\ zk_session true ZkOtherState c = [].
 Proof. intros; split; reflexivity. Qed.
+
+(* ------------------------------------------------------------------------------------------------------------ *)
+(* 6. Resuming after an expiry needs a successful Unlock and then a successful Lock                              *)
+(* ------------------------------------------------------------------------------------------------------------ *)
+
+(* monitor states from which evaluating again needs the release first / only the grant *)
+Definition needs_release (m : mon) : Prop := m_lock m = LReleasing \/ (m_lock m = LHeld /\ m_exp m = true).
+Definition needs_grant (m : mon) : Prop := m_lock m = LFree \/ m_lock m = LRequested.
+
+Lemma mon_action_release : forall m a, needs_release m -> needs_release (fst (mon_action m a)).
+Proof.
+  intros [l x c] a H. unfold needs_release in *. simpl in *.
+  destruct a; simpl; try exact H; destruct l; simpl; intuition congruence.
+Qed.
+
+Lemma mon_action_grant : forall m a, needs_grant m -> needs_grant (fst (mon_action m a)).
+Proof.
+  intros [l x c] a H. unfold needs_grant in *. simpl in *.
+  destruct a; simpl; try exact H; destruct l; simpl; intuition congruence.
+Qed.
+
+Lemma mon_actions_release : forall acts m, needs_release m -> needs_release (fst (mon_actions m acts)).
+Proof. induction acts as [|a r IH]; intros m H; simpl; [exact H | apply IH, mon_action_release, H]. Qed.
+
+Lemma mon_actions_grant : forall acts m, needs_grant m -> needs_grant (fst (mon_actions m acts)).
+Proof. induction acts as [|a r IH]; intros m H; simpl; [exact H | apply IH, mon_action_grant, H]. Qed.
+
+Lemma mon_event_release : forall m e, needs_release m ->
+  needs_release (mon_event m e) \/ (e = UnlockOk /\ needs_grant (mon_event m e)).
+Proof.
+  intros [l x c] e H. unfold needs_release, needs_grant in *. simpl in *.
+  destruct e; simpl; try (left; exact H); destruct l; simpl; intuition congruence.
+Qed.
+
+Lemma mon_event_grant : forall m e, needs_grant m -> needs_grant (mon_event m e) \/ e = LockOk.
+Proof.
+  intros [l x c] e H. unfold needs_grant in *. simpl in *.
+  destruct e; simpl; try (left; exact H); destruct l; simpl; intuition congruence.
+Qed.
+
+Lemma not_fresh_release : forall m, needs_release m -> ~ fresh m.
+Proof. intros [l x c] [H | [H1 H2]] [F1 F2]; simpl in *; congruence. Qed.
+
+Lemma not_fresh_grant : forall m, needs_grant m -> ~ fresh m.
+Proof. intros [l x c] [H | H] [F1 F2]; simpl in *; congruence. Qed.
+
+Lemma mon_run_grant : forall lt m, needs_grant m -> fresh (mon_run m lt) ->
+  exists la lb, map fst lt = la ++ LockOk :: lb.
+Proof.
+  induction lt as [|[e acts] r IH]; intros m Hg Hf; simpl in *.
+  - exfalso. exact (not_fresh_grant _ Hg Hf).
+  - unfold mon_item in Hf. simpl in Hf.
+    destruct (mon_event_grant m e Hg) as [Hg' | ->].
+    + destruct (IH _ (mon_actions_grant acts _ Hg') Hf) as [la [lb Heq]].
+      exists (e :: la), lb. rewrite Heq. reflexivity.
+    + exists [], (map fst r). reflexivity.
+Qed.
+
+Lemma mon_run_release : forall lt m, needs_release m -> fresh (mon_run m lt) ->
+  exists la lb lc, map fst lt = la ++ UnlockOk :: lb ++ LockOk :: lc.
+Proof.
+  induction lt as [|[e acts] r IH]; intros m Hr Hf; simpl in *.
+  - exfalso. exact (not_fresh_release _ Hr Hf).
+  - unfold mon_item in Hf. simpl in Hf.
+    destruct (mon_event_release m e Hr) as [Hr' | [-> Hg]].
+    + destruct (IH _ (mon_actions_release acts _ Hr') Hf) as [la [lb [lc Heq]]].
+      exists (e :: la), lb, lc. rewrite Heq. reflexivity.
+    + destruct (mon_run_grant r _ (mon_actions_grant acts _ Hg) Hf) as [la [lb Heq]].
+      exists [], la, lb. rewrite Heq. reflexivity.
+Qed.
+
+(* in any labelled trace the monitor accepts: if the session expiry is reported while the lock is held, a later
+   evaluation is preceded -- after that expiry -- by a successful Unlock and, after it, a successful Lock *)
+Theorem spec_resume_needs_unlock_and_lock : forall c0 lt l1 a0 l2 e acts l3 g t,
+  spec_ok (mon0 c0) lt = true ->
+  lt = l1 ++ (Expired, a0) :: l2 ++ (e, acts) :: l3 ->
+  m_lock (mon_run (mon0 c0) l1) = LHeld ->
+  In (Eval g t) acts ->
+  exists la lb lc, map fst l2 ++ [e] = la ++ UnlockOk :: lb ++ LockOk :: lc.
+Proof.
+  intros c0 lt l1 a0 l2 e acts l3 g t Hok -> Hheld Hin.
+  apply spec_ok_app in Hok as [_ Hok]. simpl in Hok. apply andb_prop in Hok as [_ Hok].
+  apply spec_ok_app in Hok as [_ Hok]. simpl in Hok. apply andb_prop in Hok as [Hit _].
+  unfold mon_item in Hit. simpl in Hit.
+  pose proof (mon_actions_eval_fresh _ _ _ _ Hin Hit) as Hf.
+  set (m1 := fst (mon_item (mon_run (mon0 c0) l1) (Expired, a0))) in *.
+  assert (Hr : needs_release m1).
+  { unfold m1, mon_item. simpl. apply mon_actions_release. right.
+    destruct (mon_run (mon0 c0) l1) as [l x c]. simpl in *. subst l. simpl. split; reflexivity. }
+  assert (Hf' : fresh (mon_run m1 (l2 ++ [(e, [])]))).
+  { rewrite mon_run_app. simpl. unfold mon_item. simpl. exact Hf. }
+  destruct (mon_run_release _ _ Hr Hf') as [la [lb [lc Heq]]].
+  exists la, lb, lc. rewrite map_app in Heq. simpl in Heq. exact Heq.
+Qed.
+
+(* the loop, every trace *)
+Corollary resume_needs_unlock_and_lock : forall mi c0 gs tr l1 a0 l2 e acts l3 g t,
+  snd (run (step_s mi) (init_state c0 gs) tr) = l1 ++ (Expired, a0) :: l2 ++ (e, acts) :: l3 ->
+  m_lock (mon_run (mon0 c0) l1) = LHeld ->
+  In (Eval g t) acts ->
+  exists la lb lc, map fst l2 ++ [e] = la ++ UnlockOk :: lb ++ LockOk :: lc.
+Proof.
+  intros. eapply spec_resume_needs_unlock_and_lock; [apply (eval_only_with_lock mi c0 gs tr) | eassumption | assumption | eassumption].
+Qed.
+
+(* a failing Unlock ends everything: the loop panics and no action follows, whatever happens afterwards *)
+Lemma crashed_run : forall mi tr s, ph s = Crashed -> forall it, In it (snd (run (step_s mi) s tr)) -> snd it = [].
+Proof.
+  induction tr as [|e r IH]; intros s Hc it Hin; [simpl in Hin; contradiction|].
+  assert (Hs : step_s mi s e = (s, [])).
+  { unfold step_s, step_i. rewrite Hc. simpl. unfold enter_wait. rewrite Hc. reflexivity. }
+  cbn [run] in Hin. cbv zeta in Hin. rewrite Hs in Hin. simpl in Hin.
+  destruct Hin as [<- | Hin]; [reflexivity | eapply IH; eassumption].
+Qed.
+
+Theorem unlock_error_stops_everything : forall mi s tr it,
+  ph s = Unlocking ->
+  In it (snd (run (step_s mi) s (UnlockErr :: tr))) -> it = (UnlockErr, [Panic]) \/ snd it = [].
+Proof.
+  intros mi [p d c gs] tr it Hp Hin. simpl in Hp. subst p. simpl in Hin.
+  destruct Hin as [<- | Hin]; [left; reflexivity | right].
+  eapply crashed_run; [|exact Hin]. reflexivity.
+Qed.
+
+(* non-vacuity: lock, evaluate, expiry; the release fails once (here: the model's Crashed ends it) -- and in the good
+   case release, re-acquire, evaluate again *)
+Example resume_example :
+  snd (run (step_s 0) (init_state true one_group) [Wake; LockOk; Tick 5; Expired; Wake; UnlockErr; Wake; LockOk; Tick 9])
+  = [(Wake, [CallLock]); (LockOk, []); (Tick 5, [Eval 1 5]); (Expired, []); (Wake, [CallUnlock]); (UnlockErr, [Panic]);
+     (Wake, []); (LockOk, []); (Tick 9, [])]
+  /\ m_lock (mon_run (mon0 true) [(Wake, [CallLock]); (LockOk, []); (Tick 5, [Eval 1 5])]) = LHeld.
+Proof. split; vm_compute; reflexivity. Qed.
